@@ -13,6 +13,14 @@ TB = ("Trusted: Lean 4.33 kernel (+leanchecker in the thorough tier); axioms per
       "correspondence harness compiled from the working tree on every run and by constants regenerated from the source; "
       "gcc ASan/UBSan on the C side; the Lean compiler for the driver executable. ")
 
+DAEMON_TIE = ("Tie: the whole daemon (every cjet source file except main.c) linked against a simulated kernel (-Wl,--wrap) runs generated "
+              "and directed sessions over raw, local-socket and WebSocket connections under ASan/UBSan; the Lean daemon model runs the same "
+              "message-level operations (send results and table refusals observed on the implementation are its oracle inputs); messages per "
+              "connection, closes, timer operations and the full state image at every quiescent point (peers, elements, values, fetcher "
+              "tables, routing tables) must agree. ")
+DAEMON_NOTE = ("cJSON parse/print are outside the model (messages enter it as JSON values); refusals of the hopscotch tables and the result of "
+               "every send are oracle inputs of the model (theorems quantify over all of them; C17 and C10 characterise the real ones). ")
+
 CLAIMED = {
     # id: (category, text, level_note, technique, design_ref)
     "C16": ("proof",
@@ -89,6 +97,73 @@ CLAIMED = {
             "reference judges the implementation.",
             TB + "The lock-free reader claims of the header are not modelled; char is assumed signed in the string hash.",
             "Lean 4 proof (refinement to a finite map) + differential correspondence with the compiled C", "DESIGN.md §6 C17, docs/C17.md"),
+    "C01": ("proof",
+            "16 Lean theorems over the daemon model: reachable_inv / fetch_table_char (a fetch is in an element's fetcher table iff rule and access "
+            "match; no duplicates), groups_stable_while_fetching, step_replica, replica_exact (replaying the notifications of a fetch from its "
+            "installation on yields exactly the matching visible elements with their current values, never a spurious event), adds_before_success, "
+            "silence_after_unfetch, no_spurious_on_rollback (index-full add: add then remove), order_is_generation_order - for every history, "
+            "configuration and oracle. A fetch's lifetime is delimited at request granularity (step_granularity_too_coarse shows why the batch "
+            "[fetch, unfetch, fetch] needs that). " + DAEMON_TIE + "Monitor: every subscriber's stream is replayed into a replica and compared at "
+            "every quiescent point with the daemon's own element set filtered by a python reference of the rule.",
+            TB + DAEMON_NOTE, "Lean 4 proof over executable model + differential correspondence with the compiled daemon", "DESIGN.md §6 C01, docs/C01-proofs.md"),
+    "C02": ("proof",
+            "23 Lean theorems over the daemon model: response_shape / id_echo (the response id is the request's id, same bytes / same number), "
+            "immediate_discipline and immediate_response_count (one request object yields at most one response to its sender, exactly one iff it "
+            "has a string/number id and was not routed, none otherwise; others only receive values with a method member), no_response_to_others "
+            "(message / disconnect / timer forms: a response reaches another connection only as the relay or shutdown/timeout answer of a routing "
+            "record whose requester it is), responses_never_answered, batch_as_sequence (+ step-level corollaries), at_most_one_final_answer "
+            "(ledger form). " + DAEMON_TIE + "Monitor: responses are matched one-to-one with the requests of each connection on the implementation's trace.",
+            TB + DAEMON_NOTE + "'answered' means handed to the connection's send function (delivery of the bytes is C10).",
+            "Lean 4 proof over executable model + differential correspondence with the compiled daemon", "DESIGN.md §6 C02, docs/C02-proofs.md"),
+    "C03": ("proof",
+            "26 Lean theorems over the daemon model: routes_wf, rid_unique / rid_fresh (generated ids differ from every in-flight id; hypotheses: "
+            "address tokens are non-empty and '_'-free, fewer than 2^32 requests in the run), routed_delivery (exactly one message, to the owner, "
+            "path and payload unchanged), entry_stable / resolution_cases (a routing entry is untouched by everything except its own resolvers: "
+            "third-party independence), final_answer_reply / _timeout / _shutdown (exactly one answer with the original id, payload unchanged or "
+            "the error; none for callers without id), caller_disconnect_purges, late / duplicate replies ignored, refusal_only_when_full. "
+            + DAEMON_TIE + "Directed families: bystander disconnects, every order of reply / expiry / owner close / caller close in one epoll batch, "
+            "failing delivery to the owner, small routing tables. Monitor: routed messages, final answers and routing-table contents on the trace.",
+            TB + DAEMON_NOTE, "Lean 4 proof over executable model + differential correspondence with the compiled daemon", "DESIGN.md §6 C03, docs/C03-proofs.md"),
+    "C06": ("proof",
+            "PARTIAL by nature: memory safety of C cannot be proved in Lean. Proof part: the index arithmetic of every anchored mechanism as "
+            "theorems over the component models (Cjet.Props.C06 lists them: reader pointers in bounds and parser handed exactly its own bytes, "
+            "writer fill <= capacity and copy ranges, matcher slots filled / fill index < count / state_matches never faults, WebSocket fragments "
+            "and binary frames never call an unset callback, invalid and oversize headers refused, unmask fast path byte-exact, hash table "
+            "well-formed for every sequence, log-buffer prefix arithmetic). The rest is SEARCH on the assembled daemon under ASan+UBSan on the "
+            "simulated kernel: structured sessions through the model tie with random segmentation, and byte-level chaos on all three endpoints "
+            "(valid/mutated/truncated/oversized raw frames, HTTP requests, WebSocket frames of every opcode/flag/length class, random bytes; random "
+            "read sizes, interleaving and batch composition) with a bystander connection that must survive and still be served.",
+            TB + "cJSON, http-parser, zlib and sha1 internals are not modelled; uninitialised reads are only seen where ASan/UBSan see them.",
+            "Lean 4 proof of index-safety obligations + sanitizer-backed search on the whole daemon (stated as partial)", "DESIGN.md §6 C06"),
+    "C08": ("proof",
+            "25 Lean theorems over the daemon model: groups_spec / access_iff_shared_group, peer_groups_from_auth_only (invariant: a peer's group "
+            "words are zero or exactly those of the credential record whose password it presented), fresh_peer_has_no_groups (both transports), "
+            "failed_auth_changes_nothing, visible_only_shared_group and get_only_shared_group, set_call_only_shared_group / routed_only_if_shared, "
+            "unauthenticated_sees_nothing_protected, password_noninterference (outputs depend on comparison verdicts, not on password bytes), "
+            "local_only_add, is_localhost_iff. " + DAEMON_TIE + "Families: generated credential files (users x group sets), allocator filling fresh "
+            "memory with adversarial patterns (uninitialised group words would be non-zero), local-only-add build. Monitor: visibility / set / call "
+            "follow the authenticated user's groups; passwords searched in every byte written and every syslog line.",
+            TB + DAEMON_NOTE + "crypt(3) is outside the model (plaintext comparison there; SHA-512 crypt hashes of the same passwords in the file).",
+            "Lean 4 proof over executable model + differential correspondence with the compiled daemon", "DESIGN.md §6 C08, docs/C08-proofs.md"),
+    "C14": ("proof",
+            "17 Lean theorems: deadline_precedence, element_timeout_from_add / _stable, timeout_refusal (set/call and add), itimerspec_exact / "
+            "_in_range, one_outcome, reply_after_timeout_ignored, reply_and_expiry_together (both orders), timeout_only_on_fire, and batch_safety "
+            "for a model of the repaired handle_events (no dispatched event refers to a registration removed earlier in the same batch, for every "
+            "batch and every removal behaviour) with batch_unsafe_original (decide) for the original loop. " + DAEMON_TIE + "The simulated kernel has "
+            "a virtual clock and composes epoll batches: timerfd_settime values are compared with the model's, and every order of reply / expiry / "
+            "owner close / caller close of one request is harvested in one batch under ASan.",
+            TB + DAEMON_NOTE + "'never early' rests on the timerfd contract (the simulated kernel raises a timer only at or after its deadline); the "
+            "double->ns conversion is IEEE in both code and executable model and opaque in proofs.",
+            "Lean 4 proof over executable model + differential correspondence with the compiled daemon", "DESIGN.md §6 C14, docs/C14-proofs.md"),
+    "C19": ("proof",
+            "PARTIAL (zlib assumed): Lean theorems over the bookkeeping of compression.c and the offer parser of websocket.c: reassemble_in_bounds "
+            "(all fragment size sequences, repaired code), reassemble_in_bounds_iff + counterexample for the original, frames_memory_safe, "
+            "tail_roundtrip, outloop_bookkeeping, response_len_le_buffer (any header value), response_params_legal, roundtrip_given_zlib_partial "
+            "and roundtrip_session_given_zlib_partial (hypothesis excludes the open finding F37: tiny payloads overflow the 2*len output buffer). "
+            "Tie: real compression.c + zlib + negotiation code under ASan: exhaustive fragment-size sequences, every offer subset/order/window, "
+            "round trips over payload kinds x sizes x levels x windows x takeover x fragmentations through three receive paths, corrupt streams.",
+            TB + "Losslessness rests on zlib (not modelled; the round-trip peer uses the same zlib). F37 is an open known finding printed on every run.",
+            "Lean 4 proof of bookkeeping (+ machine-checked counterexamples) + differential correspondence with the compiled C", "DESIGN.md §6 C19, docs/C19.md"),
 }
 
 NOT_YET = "machinery under construction in this round; not yet claimed"
